@@ -161,10 +161,11 @@ class Dist:
         self.cov_bcast = list(s["cb"]) != self.batch
         self.lazy = s["rep"] != "dense"
         with ctx.observing(name):
-            self.d = MultivariateNormal(self.mean_raw, lib_cov(s))
+            cov = lib_cov(s)
+            self.d = MultivariateNormal(self.mean_raw, cov)
         if s["rep"] == "Kernel":
             # make sure the representation is the one the label says (it depends on a global default)
-            assert type(self.d.lazy_covariance_matrix).__name__ == "LazyEvaluatedKernelTensor"
+            assert type(cov).__name__ == "LazyEvaluatedKernelTensor", type(cov)
 
     @property
     def rep_label(self):
